@@ -24,9 +24,11 @@ struct Ctl {
   void* op = nullptr; size_t op_size = 0; void (*del)(void*) = nullptr;
   std::unique_ptr<std::byte[]> buf; size_t buf_size = 0;
   std::vector<unsigned char> got;    // bytes a read delivered (copied out before the buffer is freed)
+  bool signalling = false;
   void signal(char h, long n, int ec) {
-    ++d.count; d.how = h; d.n = n; d.ec = ec; d.thread = vmc::self(); d.when = vmcrt::now_ns();
-    if (d.count > 1) vmcrt::fail("C14,C01", "completed-twice", "an I/O context operation completed more than once");
+    if (d.count > 0 || signalling) vmcrt::fail("C14,C01", "completed-twice", "an I/O context operation completed more than once");
+    signalling = true;
+    d.how = h; d.n = n; d.ec = ec; d.thread = vmc::self(); d.when = vmcrt::now_ns();
     if (h == 'V' && buf && n > 0 && (size_t)n <= buf_size) got.assign((unsigned char*)buf.get(), (unsigned char*)buf.get() + n);
     // the operation and its buffer die here: nobody may touch them afterwards
     if (op && stale && stale(op, op_size))
@@ -35,6 +37,9 @@ struct Ctl {
       vmcrt::fail("C14", "stale-registration", "the kernel still holds a pointer to the operation's buffer at the time it completes");
     if (del) { auto dl = del; del = nullptr; dl(op); }
     buf.reset();
+    // published last: whoever waits for count > 0 sees everything above (and synchronises with it under ThreadSanitizer)
+    VMC_TSAN_REL(&::vmc::g_wait_tok);
+    ++d.count;
   }
 };
 template <class Token = inplace_stop_token>
